@@ -1,6 +1,8 @@
-(* Property C08: what the faithful model REFUTES once a timeout policy is combined with retry,
-   wait-before or wait-after (every witness is a timed run: no job fires before its execute_at).
-   The same event lists are replayed on the real code by harness/suites/C08.py (CORPUS). *)
+(* Property C08: (1) regression - the witnesses that refuted finality / the verdict / the timeout clause before
+   the guards of _continue_task / _complete_task and the abandoning of the timed-out attempt are clean now;
+   (2) what the faithful model still REFUTES: a job of an older delay that finds the task DELAYED again (by a
+   newer delay scheduled after the timer failed the task) still acts.  Every witness is a timed run (no job fires
+   before its execute_at).  The same event lists are replayed on the real code by harness/suites/C08.py (CORPUS). *)
 From Coq Require Import List NArith ZArith Bool.
 Require Import Mistral.Gen.States Mistral.Model.Policy Mistral.Proofs.PolicyBound.
 Import ListNotations.
@@ -8,61 +10,86 @@ Open Scope N_scope.
 
 Definition some_int (z : Z) : option pval := Some (PInt z).
 
-(* retry count 1 delay 5, timeout 3: the timer fails the task during the retry delay (ERROR, follow-ups
-   dispatched); the continue job scheduled before that still runs and revives the completed task *)
+(* ---- (1) regression ---- *)
+
+(* retry 1/5, timeout 3: the timer fails the task during the retry delay; the continue job is now ignored *)
 Definition w1_cfg : cfg := mkCfg None None None None (Some (mkRCfg (PInt 1) (PInt 5) false false)) (some_int 3) None.
 Definition w1_evs : list event :=
-  [EStart; ETick 1; EAct 0 ERROR false false; ETick 2; EFire 0; ETick 3].
+  [EStart; ETick 1; EAct 0 ERROR false false; ETick 2; EFire 0; ETick 3; EFire 0; ETick 1; EAct 1 ERROR false false].
 
-Theorem stale_continue_job_revives_completed_task :
-  exists c evs j, cfg_ok c = true /\
-    let s := run c evs in
-    s_early (step c s (EFire j)) = false /\
-    s_state s = ERROR /\ s_info s = ITimeout /\ length (s_disp s) = 1%nat /\
-    s_state (step c s (EFire j)) = RUNNING /\
-    length (s_acts (step c s (EFire j))) = S (length (s_acts s)).
-Proof. exists w1_cfg, w1_evs, 0%nat. vm_compute. repeat split. Qed.
+Theorem stale_continue_job_ignored :
+  cfg_ok w1_cfg = true /\ s_early (run w1_cfg w1_evs) = false /\
+  s_state (run w1_cfg w1_evs) = ERROR /\ s_info (run w1_cfg w1_evs) = ITimeout /\
+  length (s_acts (run w1_cfg w1_evs)) = 1%nat /\ length (s_disp (run w1_cfg w1_evs)) = 1%nat /\ s_jobs (run w1_cfg w1_evs) = [].
+Proof. vm_compute. repeat split. Qed.
 
-(* ... and its follow-up commands are dispatched a second time *)
-Theorem follow_ups_dispatched_twice :
-  exists c evs, cfg_ok c = true /\ s_early (run c evs) = false /\ length (s_disp (run c evs)) = 2%nat.
-Proof.
-  exists w1_cfg, (w1_evs ++ [EFire 0%nat; ETick 1; EAct 1 ERROR false false]). vm_compute. repeat split.
-Qed.
-
-(* retry 2/3, wait-after 10, timeout 5: the first attempt succeeds, the timer expires during the wait-after delay,
-   the retry policy starts attempt 2, then the stale wait-after job completes the task with the result of attempt 1 *)
+(* retry 2/3, wait-after 10, timeout 5: the wait-after job of attempt 1 is ignored while attempt 2 runs *)
 Definition w2_cfg : cfg := mkCfg None None (some_int 10) None (Some (mkRCfg (PInt 2) (PInt 3) false false)) (some_int 5) None.
 Definition w2_evs : list event :=
   [EStart; ETick 1; EAct 0 SUCCESS false false; ETick 4; EFire 0; ETick 3; EFire 1; ETick 3; EFire 0].
 
-Theorem success_while_last_attempt_running :
-  exists c evs, cfg_ok c = true /\ s_early (run c evs) = false /\
-    s_state (run c evs) = SUCCESS /\
-    exists a, nth_error (s_acts (run c evs)) (pred (length (s_acts (run c evs)))) = Some a /\ a_state a = RUNNING.
-Proof. exists w2_cfg, w2_evs. vm_compute. repeat split. eexists. split; reflexivity. Qed.
+Theorem stale_wait_after_job_ignored :
+  cfg_ok w2_cfg = true /\ s_early (run w2_cfg w2_evs) = false /\
+  s_state (run w2_cfg w2_evs) = RUNNING /\ length (s_acts (run w2_cfg w2_evs)) = 2%nat /\
+  s_disp (run w2_cfg w2_evs) = [] /\ s_jobs (run w2_cfg w2_evs) = [].
+Proof. vm_compute. repeat split. Qed.
 
-(* wait-after 2, timeout 5: the timer expires on the running attempt (the task is to become ERROR with the timeout
-   message after the wait-after delay); the late result of that attempt then ends the task SUCCESS *)
+(* wait-after 2, timeout 5: the attempt running when the timer expires is abandoned, its late result is ignored,
+   the task ends ERROR with the timeout message after the wait-after delay *)
 Definition w3_cfg : cfg := mkCfg None None (some_int 2) None None (some_int 5) None.
 Definition w3_evs : list event := [EStart; ETick 5; EFire 0; ETick 1; EAct 0 SUCCESS false false; ETick 1; EFire 0].
 
-Theorem timeout_undone_by_late_result :
+Theorem late_result_of_timed_out_attempt_ignored :
+  cfg_ok w3_cfg = true /\ s_early (run w3_cfg w3_evs) = false /\
+  s_state (run w3_cfg w3_evs) = ERROR /\ s_info (run w3_cfg w3_evs) = ITimeout /\
+  map a_state (s_acts (run w3_cfg w3_evs)) = [ERROR] /\ s_disp (run w3_cfg w3_evs) = [(7, ERROR)].
+Proof. vm_compute. repeat split. Qed.
+
+(* ---- (2) still refuted ---- *)
+
+(* wait-after 5, retry 2/10, timeout 2: attempt 1 succeeds at 1 (wait-after job at 6), the timer fails the task at 2,
+   the retry policy delays it again (continue job at 12); the wait-after job still finds the task DELAYED and completes
+   it with the pre-timeout result: the timeout is undone and the scheduled retry never runs *)
+Definition r1_cfg : cfg := mkCfg None None (some_int 5) None (Some (mkRCfg (PInt 2) (PInt 10) false false)) (some_int 2) None.
+
+Theorem timeout_undone_by_stale_wait_after_job :
+  exists c evs1 evs2 j jb, cfg_ok c = true /\
+    nth_error (s_jobs (run c evs1)) j = Some jb /\ j_kind jb = JTimeout /\ j_at jb <= s_now (run c evs1) /\
+    is_completed (s_state (run c evs1)) = false /\
+    s_early (run c (evs1 ++ EFire j :: evs2)) = false /\
+    s_state (run c (evs1 ++ EFire j :: evs2)) = SUCCESS /\ s_jobs (run c (evs1 ++ EFire j :: evs2)) = [] /\
+    length (s_acts (run c (evs1 ++ EFire j :: evs2))) = 1%nat.
+Proof.
+  exists r1_cfg, [EStart; ETick 1; EAct 0 SUCCESS false false; ETick 1], [ETick 4; EFire 0%nat; ETick 6; EFire 0%nat], 0%nat.
+  eexists. vm_compute. repeat split. intros H; discriminate H.
+Qed.
+
+(* wait-before 5, wait-after 4, timeout 3: the timer fails the task before it started (ERROR postponed by wait-after);
+   the wait-before job still finds the task DELAYED, starts the action, its success ends the task SUCCESS *)
+Definition r2_cfg : cfg := mkCfg None (some_int 5) (some_int 4) None None (some_int 3) None.
+
+Theorem timeout_undone_by_stale_wait_before_job :
   exists c evs1 evs2 j jb, cfg_ok c = true /\
     nth_error (s_jobs (run c evs1)) j = Some jb /\ j_kind jb = JTimeout /\ j_at jb <= s_now (run c evs1) /\
     is_completed (s_state (run c evs1)) = false /\
     s_early (run c (evs1 ++ EFire j :: evs2)) = false /\
     s_state (run c (evs1 ++ EFire j :: evs2)) = SUCCESS /\ s_jobs (run c (evs1 ++ EFire j :: evs2)) = [].
 Proof.
-  exists w3_cfg, [EStart; ETick 5], [ETick 1; EAct 0 SUCCESS false false; ETick 1; EFire 0%nat], 0%nat.
+  exists r2_cfg, [EStart; ETick 3], [ETick 2; EFire 0%nat; ETick 1; EAct 0 SUCCESS false false; ETick 1; EFire 0%nat], 1%nat.
   eexists. vm_compute. repeat split. intros H; discriminate H.
 Qed.
 
-(* wait-before 5, timeout 3 *)
-Theorem stale_wait_before_job_revives_task :
+(* retry 2/5, timeout 3: attempt 1 fails at 1 (continue job A at 6), the timer fails the task at 3 and the retry policy
+   delays it again (retry_no 2, continue job B at 8); A still finds the task DELAYED and starts attempt 2 at 6, B is
+   ignored: one retry is consumed without an attempt - the task stops after 2 of the 3 attempts it may make although no
+   attempt succeeded and no break-on / continue-on stops it *)
+Definition r3_cfg : cfg := mkCfg None None None None (Some (mkRCfg (PInt 2) (PInt 5) false false)) (some_int 3) None.
+Definition r3_evs : list event :=
+  [EStart; ETick 1; EAct 0 ERROR false false; ETick 2; EFire 0; ETick 3; EFire 0; ETick 2; EFire 0; EAct 1 ERROR false false].
+
+Theorem stale_retry_job_consumes_a_retry :
   exists c evs, cfg_ok c = true /\ s_early (run c evs) = false /\
-    s_state (run c [EStart; ETick 3; EFire 1]) = ERROR /\ s_state (run c evs) = RUNNING.
-Proof.
-  exists (mkCfg None (some_int 5) None None None (some_int 3) None), [EStart; ETick 3; EFire 1%nat; ETick 2; EFire 0%nat].
-  vm_compute. repeat split.
-Qed.
+    is_completed (s_state (run c evs)) = true /\ s_jobs (run c evs) = [] /\
+    map h_res (s_hist (run c evs)) = [ERROR; ERROR] /\
+    N.of_nat (length (s_acts (run c evs))) < n_cnt (norm c) + 1 /\ n_hb (norm c) = false /\ n_hc (norm c) = false.
+Proof. exists r3_cfg, r3_evs. vm_compute. repeat split. Qed.
